@@ -110,6 +110,7 @@ func findingCases() map[string]Case {
 		"F-20j-typename-field-name-collision": Case{Schema: fixedSchema(), Seed: 7, Worlds: 4, Docs: []Doc{{Defs: []Def{
 			{Kind: "query", Name: "Q1", Sels: []Sel{f("a", f("__typename"), fa("typename__", "id"))}}}}}},
 		"F-20k-enum-type-shadowed-in-generated-method": scopeEnumNamed("b"),
+		"F-20l-holder-is-blank-identifier": blankNamed(true),
 	}
 }
 
@@ -119,6 +120,26 @@ func scopeCase(enums []TypeSpec, qfields []FieldSpec, opName string, sels ...Sel
 	types = append(types, TypeSpec{Kind: "object", Name: "Query", Fields: qfields})
 	return Case{Schema: SchemaSpec{Query: "Query", Types: types}, Seed: 7, Worlds: 4,
 		Docs: []Doc{{Defs: []Def{{Kind: "query", Name: opName, Sels: sels}}}}}
+}
+
+// blankNamed: a fragment named `_` (asFragment) or an object type named `_` in a union.
+func blankNamed(asFragment bool) Case {
+	obj := "Alpha"
+	if !asFragment {
+		obj = "_"
+	}
+	s := SchemaSpec{Query: "Query", Types: []TypeSpec{
+		{Kind: "object", Name: obj, Fields: []FieldSpec{{Name: "x", Type: named("Int")}}},
+		{Kind: "union", Name: "U", Members: []string{obj}},
+		{Kind: "object", Name: "Query", Fields: []FieldSpec{{Name: "u", Type: named("U")}}},
+	}}
+	if asFragment {
+		return Case{Schema: s, Seed: 7, Worlds: 4, Docs: []Doc{{Defs: []Def{
+			{Kind: "query", Name: "Q1", Sels: []Sel{f("u", f("__typename"), spread("_"))}},
+			{Kind: "frag", Name: "_", Cond: "Alpha", Sels: []Sel{f("x")}}}}}}
+	}
+	return Case{Schema: s, Seed: 7, Worlds: 4, Docs: []Doc{{Defs: []Def{
+		{Kind: "query", Name: "Q1", Sels: []Sel{f("u", f("__typename"), on("_", f("x")))}}}}}}
 }
 
 // scopeEnumNamed: an enum with the given name used inside a selection set that carries a fragment (so
@@ -207,6 +228,7 @@ func scopeCases() map[string]Case {
 			f("i", f("__typename"), on("Beta", f("y")), on("Alpha", f("c")), on("Beta", f("cube")), on("Alpha", f("next", f("c"))),
 				Sel{Kind: "i", Sels: []Sel{f("__typename"), on("Beta", fa("g2", "grid"))}}, Sel{Kind: "i", Sels: []Sel{f("__typename"), on("Alpha", fa("c2", "c"))}}),
 		}}}}}},
+		"scope-F-20l-type-named-underscore": blankNamed(false),
 		"scope-F-20k-enum-named-s":        scopeEnumNamed("s"),
 		"scope-enum-named-base":           scopeEnumNamed("base"),
 		"scope-enum-named-err":            scopeEnumNamed("err"),
